@@ -3,4 +3,5 @@ CONSTANTS
   Pinned = FALSE
 INVARIANT TypeOK
 INVARIANT WalkAgrees
+INVARIANT CmdAgrees
 CHECK_DEADLOCK FALSE
